@@ -1,6 +1,6 @@
 (* Entry point of the C10 correspondence: selector + tokens -> tokens.
    Wire format of a history:
-     maxDepth allocCheck rootProt  nQ queue*  nReq request*
+     maxDepth allocCheck rootProt notTree  nQ queue*  nReq request*
      queue   = name parent(0 = "") allocatedPods state rl(cap) rl(deserved) rl(guarantee)
      rl      = n (dim amount)*n
      request = 1 name parent rl rl rl | 2 name parent rl rl rl | 3 name | 4 name pods state (-1 = unchanged)
@@ -40,7 +40,11 @@ Definition dReq : dec req :=
   else if k =? 4 then let* n := dPos in let* a := dZ in let* st := dZ in ret (EnvStatus n a st)
   else fail.
 Definition dCfg : dec cfg :=
-  let* m := dZ in let* a := dBool in let* r := dBool in ret (mkCfg m a r).
+  let* m := dZ in let* a := dBool in let* r := dBool in let* _ := dZ in ret (mkCfg m a r).
+(* the 4th configuration token is for the harness and law 108 only: 1 = the generator perturbed the
+   initial set on purpose, the gate need not hold *)
+Definition not_tree (toks : list Z) : bool :=
+  match toks with _ :: _ :: _ :: e :: _ => negb (e =? 0) | _ => false end.
 Definition dHistory : dec (cfg * queues * list req) :=
   let* c := dCfg in let* qs := dList dQueue in let* rs := dList dReq in
   ret (c, list_to_map qs, rs).
@@ -74,12 +78,34 @@ Definition entry (sel : Z) (toks : list Z) : list Z :=
          | Some (c, q, rs) => run_entry c q rs
          | None => bad_input
          end
+  (* two requests validated against the SAME queue set (concurrent admissions, informer lag): the
+     set the history produced; both verdicts, then the set after applying the admitted ones *)
+  | 2 => match run_dec (let* h := dHistory in let* r1 := dReq in let* r2 := dReq in ret (h, r1, r2)) toks with
+         | Some (c, q, rs, r1, r2) =>
+           let Q := run_history c q rs in
+           let v1 := verdict_of c Q r1 in
+           let v2 := verdict_of c Q r2 in
+           let Q1 := if allowed v1 then apply_req Q r1 else Q in
+           let Q2 := if allowed v2 then apply_req Q1 r2 else Q1 in
+           tag 1 ++ [vcode v1] ++ tag 2 ++ [vcode v2] ++ tag 900 ++ eState Q2
+         | None => bad_input
+         end
+  (* the three fixed concurrent scenarios: both admitted, the set before is a tree, the set after is not *)
+  | 3 => match run_dec (let* h := dHistory in let* r1 := dReq in let* r2 := dReq in ret (h, r1, r2)) toks with
+         | Some (c, q, rs, r1, r2) =>
+           let Q := run_history c q rs in
+           eBool (allowed (verdict_of c Q r1) && allowed (verdict_of c Q r2)) ++
+           eBool (depth_okb c && tree_okb c Q) ++
+           eBool (depth_okb c && tree_okb c (apply_req (apply_req Q r1) r2))
+         | None => bad_input
+         end
   | 101 => law_entry law_shape toks
   | 102 => law_entry law_per toks
   | 103 => law_entry law_sums toks
   | 104 => law_entry law_caps toks
   | 105 => law_entry law_delete toks
   | 107 => law_entry law_delete_alloc toks
+  | 108 => if not_tree toks then eBool true else law_entry law_gate toks
   | 106 => match run_dec (let* h := dHistory in let* vs := dList dZ in let* rd := dZ in ret (h, vs, rd)) toks with
            | Some (c, q, rs, vs, rd) => eBool (law_capacity c q rs vs rd)
            | None => bad_input
